@@ -9,14 +9,107 @@ only with bytes the peer application submitted, in order; an application send su
 """
 import json
 import vlib, sesslib
-from sesslib import CONFIGS, attacker_records, prefix_script, parse_steps
+from sesslib import CONFIGS, DTLS_CONFIGS, attacker_records, prefix_script, parse_steps
+
+
+def build_dtls_scenarios(ck, sr, cfgs, seeds, scripts, inj_desc, meta, full_cfgs=("dtls12",)):
+    """DTLS 1.2 / 1.0: every prefix of the legal record trace (one record per datagram) x both sides x attacker records in DTLS
+    framing (epoch in {0, current, current+1} x sequence number in {fresh, replayed, far ahead}), replay / reflection of every
+    genuine record, application sends and retransmission timeouts in every state, the gate sweep, a misbehaving authenticated
+    peer, whole-datagram handshakes and handshakes that lose a flight."""
+    for name in cfgs:
+        cfg = DTLS_CONFIGS[name]
+        full = name in full_cfgs
+        for seed in seeds:
+            trace, tout = sr.legal_trace(cfg, seed)
+            if not trace:
+                ck.count("no_legal_trace:" + name); continue
+            states = sesslib.side_states(tout, cfg)
+            n = len(trace)
+            for k in range(n + 1):
+                for side in ("c", "s"):
+                    stt = states[k][side] if k < len(states) else None
+                    xe, lr = (stt["xe"], stt["lr"]) if stt else (0, 0)
+                    for (an, raw, d) in sesslib.dtls_attacker_records(cfg, xe, lr, full):
+                        i = len(scripts)
+                        scripts.append(prefix_script(cfg, seed, trace, k) + " ; inj %s %s ; st" % (side, raw.hex()))
+                        inj_desc[i] = [d]; meta.append((name, k, side, an))
+                    scripts.append(prefix_script(cfg, seed, trace, k) + " ; app %s 70696e67 ; st" % side)
+                    meta.append((name, k, side, "appsend"))
+                    # the application's retransmission timer fires in this state (twice), then the handshake goes on
+                    scripts.append(prefix_script(cfg, seed, trace, k) + " ; resend %s ; resend %s ; st" % (side, side))
+                    meta.append((name, k, side, "timeout"))
+            for k in range(n):
+                d0 = trace[k]
+                to = "s" if d0 == "c2s" else "c"
+                other = "c" if to == "s" else "s"
+                base = prefix_script(cfg, seed, trace, k) + " ; save %s 1" % d0
+                for dd in trace[k:]:
+                    base += " ; step %s" % dd
+                # right after the handshake, and again after application data has been exchanged (appDataExch set: no more resends)
+                for tail, tg in ((" ", ""), (" ; app c 6869 ; step c2s ; app s 6a6b ; step s2c", "+data")):
+                    for tgt, nm in ((to, "replay_same"), (other, "reflect")):
+                        i = len(scripts)
+                        scripts.append(base + tail + " ; replay %s 1 ; st" % tgt)
+                        inj_desc[i] = [None]; meta.append((name, k, tgt, nm + tg))
+                # the same record twice in a row, mid-handshake (duplication by the network)
+                i = len(scripts)
+                scripts.append(prefix_script(cfg, seed, trace, k) + " ; save %s 1 ; step %s ; replay %s 1 ; st" % (d0, d0, to)
+                               + "".join(" ; step %s" % dd for dd in trace[k + 1:]) + " ; app c 6869 ; step c2s ; st")
+                inj_desc[i] = [None]; meta.append((name, k, to, "duplicate_now"))
+            full0 = prefix_script(cfg, seed, trace, n)
+            if full:
+                for side in ("c", "s"):
+                    other = "s" if side == "c" else "c"; din = "c2s" if side == "s" else "s2c"
+                    for hsv in list(range(1, 41)) + [255]:
+                        scripts.append(full0 + " ; seths %s %d ; app %s 6869 ; step %s ; st" % (side, hsv, other, din))
+                        meta.append((name, n, side, "gate:hs=%d" % hsv))
+            for side in ("c", "s"):
+                other = "s" if side == "c" else "c"; din = "c2s" if side == "s" else "s2c"
+                for (rt, ht, body, nm) in ((22, 0, "-", "hs:HelloRequest"), (22, 1, "0303" + "00" * 32 + "00", "hs:ClientHello"), (22, 20, "00" * 12, "hs:Finished"),
+                                          (20, 0, "01", "ccs"), (21, 0, "0164", "alert:warn:no_renegotiation"), (21, 0, "0264", "alert:fatal:no_renegotiation"),
+                                          (23, 0, "-", "app:empty")):
+                    scripts.append(full0 + " ; forge %s %d %d %s ; step %s ; app %s 6869 ; step %s ; app %s 6a ; st" % (other, rt, ht, body, din, other, din, side))
+                    meta.append((name, n, side, "forge:" + nm))
+            # data both ways, replay of a data record, out-of-order delivery of two data records, then the older one again
+            i = len(scripts)
+            scripts.append(full0 + " ; app c 68656c6c6f ; save c2s 2 ; step c2s ; app s 776f726c64 ; step s2c ; app c - ; step c2s ; replay s 2 ; st")
+            inj_desc[i] = [None]; meta.append((name, n, "s", "data_then_replay"))
+            i = len(scripts)
+            scripts.append(full0 + " ; app c 6131 ; save c2s 2 ; drop c2s ; app c 6232 ; step c2s ; replay s 2 ; replay s 2 ; st")
+            inj_desc[i] = [None, None]; meta.append((name, n, "s", "reordered_data"))
+            # datagrams holding several records, made by the attacker around genuine traffic (spec oracle only: the model steps one
+            # record per datagram): a dropped record in front of a forged one, a copy of a delivered record in front of plaintext data, ...
+            ver = sesslib.wire_version(cfg)
+            sfin = states[n]["s"] if n < len(states) and states[n]["s"] else {"xe": 1, "lr": 0}
+            xe, lr = sfin["xe"], sfin["lr"]
+            multi = [sesslib.drec_bytes(21, bytes([1, 90]), ver, 0, 7) + sesslib.drec_bytes(23, b"hello", ver, xe, lr + 2),
+                     sesslib.drec_bytes(20, b"\x01", ver, xe + 1, 0) + sesslib.drec_bytes(23, b"hello", ver, xe + 1, 1),
+                     sesslib.drec_bytes(23, b"hello", ver, 0, 1) + sesslib.drec_bytes(23, b"hello", ver, 0, 2) + sesslib.drec_bytes(23, bytes(range(64)), ver, xe, lr + 5)]
+            for mi, raw in enumerate(multi):
+                i = len(scripts)
+                scripts.append(full0 + " ; app c 6869 ; save c2s 5 ; step c2s ; inj s %s ; app c 6a ; step c2s ; st" % raw.hex())
+                inj_desc[i] = []; meta.append((name, n, "s", "multi_record_datagram:%d" % mi))
+            # whole datagrams, as the peers emit them
+            pumpdg = "".join(" ; stepdg c2s 9 ; stepdg s2c 9" for _ in range(5))
+            scripts.append(sesslib.newcmd(cfg, seed) + pumpdg + " ; app c 68656c6c6f ; stepdg c2s ; app s 776f726c64 ; stepdg s2c ; st")
+            meta.append((name, n, "s", "datagram_handshake"))
+            # a lost flight: the k-th record's whole flight direction is dropped once, both sides time out, the handshake must still
+            # complete and data must flow (records of re-sent flights carry later epochs / sequence numbers)
+            for k in range(n):
+                d0 = trace[k]
+                snd = "c" if d0 == "c2s" else "s"
+                scripts.append(prefix_script(cfg, seed, trace, k) + " ; drop %s 9 ; resend %s" % (d0, snd)
+                               + "".join(" ; step c2s 9 ; step s2c 9" for _ in range(5)) + " ; app c 68656c6c6f ; step c2s 3 ; app s 776f726c64 ; step s2c 3 ; st")
+                meta.append((name, k, snd, "lost_flight"))
+    return scripts, inj_desc, meta
 
 
 def build_scenarios(ck, sr, cfgs, seeds):
     scripts, inj_desc, meta = [], {}, []
-    atk = attacker_records(None)
     for name in cfgs:
         cfg = CONFIGS[name]
+        atk = attacker_records(cfg)
         for seed in seeds:
             trace, _ = sr.legal_trace(cfg, seed)
             if not trace:
@@ -74,27 +167,67 @@ def build_scenarios(ck, sr, cfgs, seeds):
     return scripts, inj_desc, meta
 
 
+class _Saved:
+    """a record captured by `save` on a DTLS wire queue, described by the metadata `save` printed"""
+    def __init__(self, meta, side):
+        self.meta, self.side, self.pre, self.alerts_in, self.appdata = meta, side, {"v": 0, "se": 0}, [], []
+
+
 def fill_replay_desc(scripts, outs, inj_desc):
-    """replayed genuine records: description = that of the saved record, but no longer verifying (Bad) when sealed"""
+    """replayed genuine records: description = that of the saved record, but no longer verifying (Bad) when sealed
+    (DTLS: still verifying at the side it was sealed for - see sesslib.describe_genuine).  Every None slot of a script's
+    description list is filled with the description of the record saved by the script's (last preceding) `save`."""
     for si, dl in inj_desc.items():
-        if dl != [None]:
+        if None not in dl:
             continue
         out = outs[si] if si < len(outs) else ""
         segs = out.split(" | ")
+        cmds = scripts[si].split(" ; ")
         # the saved record is the next stepped record after the `save` segment in direction order: find its meta
         saved = None
         for j, seg in enumerate(segs):
             if seg.startswith("save:"):
+                mm = sesslib.META_RE.search(seg)
+                if mm and mm.group(7) is not None:      # DTLS: `save` printed the metadata itself
+                    m2 = mm
+                    meta = {"o": int(m2.group(1)), "i": int(m2.group(2)), "s": int(m2.group(3)), "l": int(m2.group(4)),
+                            "b0": int(m2.group(5)[:2], 16), "b1": int(m2.group(5)[2:], 16), "e": int(m2.group(6) or 0),
+                            "ep": int(m2.group(7)), "sq": int(m2.group(8)), "dg": int(m2.group(9)),
+                            "vr": (int(m2.group(10)[:2], 16), int(m2.group(10)[2:], 16))}
+                    dirn = cmds[j].split()[1] if j < len(cmds) and len(cmds[j].split()) > 1 else "c2s"
+                    saved = _Saved(meta, "s" if dirn == "c2s" else "c")
+                    break
                 for seg2 in segs[j + 1:]:
                     st = parse_steps(seg2)
                     if st and st[0].kind == "step" and st[0].meta:
                         saved = st[0]; break
                 break
         if saved is None:
-            inj_desc[si] = []
+            inj_desc[si] = [x for x in dl if x is not None]
             continue
         d = sesslib.describe_genuine(saved, in_order=False)
-        inj_desc[si] = [d]
+        inj_desc[si] = [dict(d) if x is None else x for x in dl]
+
+
+def load_corpus(scripts, inj_desc, meta):
+    """corpus/C01/*.case: one script per line (`#` comments); kept defect witnesses and past disagreements, always run.
+    A line may end in `## <abstract descriptions as JSON list>` for its inj/replay steps (None = filled from `save`)."""
+    import os, glob
+    n = 0
+    for f in sorted(glob.glob(os.path.join(vlib.VERIF, "corpus", "C01", "*.case"))):
+        for line in open(f):
+            line = line.strip()
+            if not line or line.startswith("#"):
+                continue
+            desc = None
+            if " ## " in line:
+                line, dj = line.split(" ## ", 1); desc = json.loads(dj)
+            i = len(scripts)
+            scripts.append(line.strip())
+            if desc is not None:
+                inj_desc[i] = desc
+            meta.append(("corpus", 0, "-", "corpus:" + os.path.basename(f))); n += 1
+    return n
 
 
 def run(ck):
@@ -102,7 +235,13 @@ def run(ck):
                    "extraction (ExtrOcamlBasic only) + ocaml/drv_sess.ml; harness/h_sess.c + sess.h (link-time wraps of psGetEntropy, psGetBrokenDownGMTime, TLS 1.3 AEAD seal to read inner content types)",
                    "modelled, not verified: matrixSslDecode / matrixSslDecodeTls13 / matrixSslDecodeTls12AndBelow record-layer control flow and the encode gates are hand-written Gallina (coq/Sess/SessModel.v) compared with the library step by step on every run",
                    "handshake-message processing is an oracle in the model (answers read off the implementation); symbolic keys: a record is Good iff it verifies under the receiver's current key and sequence number (byte-level realisation: C02)"]
-    ck.assumptions += ["attacker without session keys = can only produce records that are plaintext, garbage, or copies of records an honest peer sent"]
+    ck.assumptions += ["attacker without session keys = can only produce records that are plaintext, garbage, or copies of records an honest peer sent",
+                       "DTLS: epoch and sequence number are explicit and authenticated, so a copy of a genuine record still verifies at the side it was sealed for; "
+                       "what keeps it out is the replay window (r_replay = Dup), whose agreement with 'this sequence number was accepted before in this epoch' is C16's theorem. "
+                       "The attacker of the DTLS theorems is therefore: records that do not verify, or copies (Dup) of records of the expected epoch",
+                       "DTLS: records of another epoch and replayed sequence numbers are dropped before decryption (silently or with a retransmission request); "
+                       "a record of the expected epoch with a fresh sequence number that fails to verify is fatal, as in TLS (MatrixSSL does not use RFC 6347 4.1.2.7's permission to discard it)",
+                       "DTLS model = one record per datagram; a datagram with several records is decoded record by record by the same code, records behind an answered record are dropped unread"]
     ck.build_repo()
     ck.regen([("consts.sh",), ("gen_defines.py",)])
     ck.coq_properties()
@@ -110,17 +249,39 @@ def run(ck):
     cfgs = ["tls12", "tls13", "tls13c_12s", "tls12_cauth", "tls13_cauth", "tls12_cbc", "tls12_resumed_id", "tls12_resumed_ticket", "tls13_resumed_psk", "tls13_resumed_early", "tls13_extpsk"] if ck.tier == "quick" else list(CONFIGS)
     seeds = [ck.seed] if ck.tier == "quick" else [ck.seed, ck.seed + 1, ck.seed + 2]
     scripts, inj_desc, meta = build_scenarios(ck, sr, cfgs, seeds)
+    ntls = len(scripts)
+    dcfgs = ["dtls12", "dtls12_cbc", "dtls12_cauth", "dtls12_resumed_id", "dtls10"] if ck.tier == "quick" else list(DTLS_CONFIGS)
+    build_dtls_scenarios(ck, sr, dcfgs, seeds, scripts, inj_desc, meta, full_cfgs=("dtls12",) if ck.tier == "quick" else ("dtls12", "dtls12_cbc", "dtls10", "dtls12_resumed_id"))
+    corpus = load_corpus(scripts, inj_desc, meta)
+    ck.cov["dtls_scenarios"] = len(scripts) - ntls
     outs = sr.run(scripts)
     fill_replay_desc(scripts, outs, inj_desc)
     back = sesslib.analyse(ck, sr, scripts, outs, "session record-layer machine: decode(model) vs matrixSslReceivedData(impl)", inj_desc)
     ck.rules.append("for each configuration (TLS 1.1/1.2/1.3, fallback, client-auth, CBC/GCM): every prefix of the legal record trace x both sides x "
-                    "13 attacker-makeable records (plaintext app data/alerts/CCS/handshake, garbage, bad headers) + replay and cross-direction "
+                    "15 attacker-makeable records (plaintext app data/alerts/CCS/handshake, garbage, bad headers, wrong record version; framed with the "
+                    "version the configuration negotiates) + replay and cross-direction "
                     "reflection of every genuine record + application sends in every state; a step is non-trivial unless refused by the dead-session guard")
+    ck.rules.append("DTLS 1.2 (GCM, CBC, client auth, resumed) and DTLS 1.0: the same matrix with records in DTLS framing, one record per datagram: "
+                    "epoch in {0, expected, expected+1} x sequence number in {fresh, replayed, far ahead} (full cross product for 6 record kinds, "
+                    "expected epoch + fresh number for the others), truncated datagram, wrong version; replay / reflection of every genuine record "
+                    "right after the handshake, after data exchange and immediately (network duplication); reordered data records; retransmission "
+                    "timeouts (matrixDtlsGetOutdata with nothing pending) in every state; whole-datagram handshakes; handshakes losing one flight")
     # ---- Impl vs Spec
     sent_ok = 0
+    delivered = set()
     for si, st, d in back:
         if st.appdata:
             legit = st.kind == "step" and st.pre["done"] == 1
+            if st.pre["dt"]:
+                # DTLS: a genuine record may arrive late or out of order (also through `replay` of a record that was never delivered),
+                # but it is delivered at most once, only at the side it was sealed for, unmodified, after completion
+                key = (si, st.side, d.get("ep"), d.get("sq"))
+                legit = st.pre["done"] == 1 and st.kind in ("step", "replay") and d.get("prot") == "good" and key not in delivered
+                if key in delivered:
+                    ck.spec_violation("dtls-record-delivered-twice:hs%d" % st.pre["hs"], "DTLS record (epoch %s, sequence number %s) was delivered to the application twice" % (d.get("ep"), d.get("sq")),
+                                      {"harness": "h_sess", "script": scripts[si], "observed": st.body, "scenario": meta[si]})
+                delivered.add(key)
+                ck.count("dtls_delivery:" + st.kind)
             # accepted 0-RTT data: a TLS 1.3 server that enabled early data for a resumption PSK, in WAIT_EOED, from a record that verified
             if st.kind == "step" and st.pre["v"] == 1 and st.pre["sv"] == 1 and st.pre["se"] == 1 and st.pre["hs"] == 27 and d.get("prot") == "good":
                 ck.count("accepted_early_data_delivered"); legit = True
@@ -138,6 +299,34 @@ def run(ck):
                                       st.appdata, "server" if st.side == "s" else "client", "genuine" if st.kind == "step" else "attacker-injected/replayed",
                                       st.pre["hs"], st.pre["done"], st.pre["R"]),
                                   {"harness": "h_sess", "script": scripts[si], "observed": st.body, "scenario": meta[si]})
+    # datagram-level deliveries and attacker datagrams with several records are not steps of the model: spec oracle only
+    for si, out in enumerate(outs):
+        if meta[si][3] == "datagram_handshake" or meta[si][3].startswith("multi_record_datagram"):
+            for m in sesslib.re.finditer(r"(stepdg|inj):([cs]) pre=(\S+) (.*?)post=(\S+)", out):
+                pre = sesslib.parse_snap(m.group(3)); body = m.group(4)
+                got = sesslib.re.findall(r"APPDATA:([0-9a-f-]+)", body)
+                if got and (m.group(1) == "inj" or not (pre and pre["done"])):
+                    ck.spec_violation("dtls-datagram-delivery:%s:hs%s" % (m.group(1), pre["hs"] if pre else "?"),
+                                      "application data %s delivered from %s" % (got, "an attacker-made datagram" if m.group(1) == "inj" else "a datagram received before the handshake completed"),
+                                      {"harness": "h_sess", "script": scripts[si], "observed": body[:400], "scenario": meta[si]})
+                elif got:
+                    ck.count("dtls_datagram_delivery_ok")
+                elif m.group(1) == "inj":
+                    ck.count("dtls_attacker_datagram_nothing_delivered")
+    # DTLS liveness sanity of the harness scenarios (not a C01 obligation, but a dead scenario would prove nothing): whole-datagram
+    # handshakes and handshakes that lost one flight complete and carry data both ways
+    for si, out in enumerate(outs):
+        if meta[si][3] in ("datagram_handshake", "lost_flight"):
+            segs = out.split(" | ")
+            data = "".join(re_app for re_app in sesslib.re.findall(r"APPDATA:([0-9a-f]+)", out))
+            fin = sesslib.re.search(r"st:c=(\S+) s=(\S+)$", out.strip())
+            cdone = fin and (sesslib.parse_snap(fin.group(1)) or {}).get("done")
+            sdone = fin and (sesslib.parse_snap(fin.group(2)) or {}).get("done")
+            if cdone and sdone and "68656c6c6f" in data and "776f726c64" in data:
+                ck.count("dtls_%s_completed" % meta[si][3])
+            else:
+                ck.count("dtls_%s_incomplete" % meta[si][3])
+                ck.count("dtls_%s_incomplete:%s:k=%d" % (meta[si][3], meta[si][0], meta[si][1]))
     # delivered bytes = submitted bytes, in order (legal data exchange scripts)
     for si, out in enumerate(outs):
         if meta[si][3] != "data_then_replay":
